@@ -158,15 +158,15 @@ Qed.
 
 (* encrypted archives: ANY key, nonce and body with fewer than 2^32 chunks, any history *)
 Theorem hist_enc_no_crash (k : consts) (key nonce8 body : bytes) names ops :
-  0 < cCHUNK k -> len body < 2 ^ 32 * cCHUNK k ->
+  0 < cCHUNK k -> len body < 2 ^ 32 * cCHUNK k -> cCHUNK k <= 2 ^ 31 ->
   no_crash_rows (hist_enc k key nonce8 body names ops).
 Proof.
-  intros HC HM. unfold hist_enc. cbv zeta.
+  intros HC HM HC31. unfold hist_enc. cbv zeta.
   match goal with |- context [enc_open ?ch ?tg ?ks ?tagc (Cursor body) 0] =>
     pose proof (enc_open_tame ch tg ks tagc (Cursor body) (fun _ => True) (fun s => s) (len body)
                   (cursor_tame_inner body) HC HM 0 Logic.I) as H;
     pose proof (enc_reader_tame ch tg ks tagc (Cursor body) (fun _ => True) (fun s => s) (len body)
-                  (cursor_tame_inner body) HC HM) as HT;
+                  (cursor_tame_inner body) HC HM HC31) as HT;
     destruct (enc_open ch tg ks tagc (Cursor body) 0) as [s [q|e|c]]
   end.
   - eapply hist_run_no_crash; [exact HT|exact H|lia].
